@@ -790,6 +790,7 @@ pub fn main(a: Args) -> i32 {
         let idn: usize = id.parse().unwrap_or(0);
         let line = c.line(idn);
         let line = format!("{} {}", id, line.splitn(2, ' ').nth(1).unwrap());
+        out.inflight(&line);
         let (impl_line, mut fail) = run_case(id, c);
         if fail.is_none() && *class == "listing_wellformed" {
             if let Case::L { bytes } = c {
